@@ -91,6 +91,7 @@ pub broadcast group f64_cmp_specs { f64_obeys_eq, f64_eq_spec, f64_obeys_partial
 
 // ---- classification / rounding (std documented behaviour) ----
 pub assume_specification[ f64::is_nan ](x: f64) -> (r: bool) ensures r == (fv(x) is NaN);
+pub assume_specification[ f64::is_finite ](x: f64) -> (r: bool) ensures r == (fv(x) is Fin);
 pub assume_specification[ f64::is_infinite ](x: f64) -> (r: bool) ensures r == (fv(x) is PosInf || fv(x) is NegInf);
 pub assume_specification[ f64::is_sign_positive ](x: f64) -> (r: bool)
     ensures fv(x) is PosInf ==> r, fv(x) is NegInf ==> !r, (fv(x) is Fin && fv(x)->Fin_0 > 0real) ==> r, (fv(x) is Fin && fv(x)->Fin_0 < 0real) ==> !r;
